@@ -1,6 +1,5 @@
 INIT Init
 NEXT Next
 INVARIANT Inv
-INVARIANT Hyp
 INVARIANT Arms
 CHECK_DEADLOCK FALSE
